@@ -20,8 +20,8 @@ DEDUCTIVE part (the real functions are symbolically executed, every clause is a 
 BOUNDED stand-ins (labelled `bounded_only`; CPython + real protobuf): claims of the four types assembled through
 `update()` and through the setters (attrs.py / claim.py plumbing), all language tags of the schema, raw hash accessors, tags,
 the two legacy encodings (compat.py) incl. recorded upstream vectors.
-KNOWN FINDINGS of the pinned tree, excluded from the deductive preconditions where they apply and reported by bounded
-proofs: F11 (URL + final newline accepted), F16.2 (regions RE/RO/RS/RU/RW mangled), F16.3 (bt_infohash_bytes getter),
+FINDINGS of the pinned tree, all repaired by `fix:` commits in /repo and now covered by the proofs without any exclusion:
+F11 (URL + final newline accepted), F16.2 (regions RE/RO/RS/RU/RW mangled), F16.3 (bt_infohash_bytes getter),
 F16.4 (legacy JSON float fee amounts).
 """
 from pyvc.api import *
@@ -1285,14 +1285,14 @@ class UrlParsePrint:
 
 @proof("C16", "url.rejects")
 class UrlRejects:
-    """every string the grammar forbids is rejected with ValueError, for strings of any length.  The known finding F11 (a valid
-    URL followed by one newline is accepted) is excluded here and reported by url.rejects-final-newline."""
+    """every string the grammar forbids is rejected with ValueError, for strings of any length (including a valid URL followed
+    by one newline: fixed finding F11)"""
     inputs = dict(u=TStr())
     timeout = 10    # per-solver budget (z3 5.1 decides these regular-language queries in milliseconds; z3 4.8 / cvc5 often cannot)
     note = "78 near-grammar strings; every forbidden character inserted at the start, middle and end of 6 valid URLs"
 
     def requires(u):
-        return not matches(u, GRAMMAR_NL)
+        return not matches(u, GRAMMAR)
 
     def run(u):
         use_extended_regex_model()
@@ -1340,8 +1340,8 @@ class UrlAccepts:
 
 @proof("C16", "url.rejects-final-newline")
 class UrlRejectsFinalNewline:
-    """BOUNDED, and EXPECTED TO FAIL on the pinned tree (known finding F11): a valid URL followed by a newline is not in the
-    grammar and must be rejected; the real pattern ends with `$`, which matches before a final newline."""
+    """BOUNDED: a valid URL followed by a newline is not in the grammar and must be rejected (fixed finding F11: the pattern
+    ended with `$`, which matches before a final newline; the deductive url.rejects covers these strings too)"""
     bounded_only = True
     inputs = dict(u=TStr())
     note = "48 shapes of valid URL + one newline"
@@ -1928,8 +1928,8 @@ class ClaimRoundTrip:
 @proof("C16", "claim.languages")
 class ClaimLanguages:
     """BOUNDED stand-in: every language tag language[-Script][-REGION] of the schema's enumerations that is appended to a claim
-    reads back as the same tag and the same parts after a round trip.  EXPECTED TO FAIL for the regions RE, RO, RS, RU, RW
-    (known finding F16.2)."""
+    reads back as the same tag and the same parts after a round trip (fixed finding F16.2: regions RE, RO, RS, RU, RW lost
+    their first letter)."""
     bounded_only = True
     inputs = dict(langtag=TStr())
     note = "all 184 languages, 199 scripts, 529 regions (2-letter and UN M.49 numeric), and 529 language-Script-REGION combinations"
@@ -1950,7 +1950,7 @@ class ClaimLanguages:
 @proof("C16", "claim.hash-bytes")
 class ClaimHashBytes:
     """BOUNDED stand-in: the raw-bytes accessors of the stream source (sd_hash_bytes, file_hash_bytes, bt_infohash_bytes) return
-    the bytes that were set, before and after a round trip.  EXPECTED TO FAIL for bt_infohash_bytes (known finding F16.3)."""
+    the bytes that were set, before and after a round trip (fixed finding F16.3: the bt_infohash_bytes getter decoded them)."""
     bounded_only = True
     inputs = dict(field=TStr(), value=TBytes())
     note = "3 accessors x 4 byte strings (ascending, high bytes, ASCII letters, zeros)"
@@ -1972,8 +1972,8 @@ class ClaimLegacy:
     """BOUNDED stand-in: claims in the two legacy encodings (version 0: JSON text; version 1: the v1 protobuf schema, built
     here with the generated v1 classes) still decode through Claim.from_bytes, to a claim showing the title, description,
     author, license, licence URL, thumbnail, language, content type, stream hash, nsfw flag (tag 'mature'), fee and signature
-    that the legacy claim carries; plus the six vectors of the upstream test-suite.  EXPECTED TO FAIL for JSON fee amounts
-    written as non-dyadic numbers (known finding F16.4)."""
+    that the legacy claim carries; plus the six vectors of the upstream test-suite.  Fixed finding F16.4: JSON fee amounts
+    written as non-dyadic numbers were read through the binary expansion of the float."""
     bounded_only = True
     inputs = dict(encoding=TStr(), v=TDict())
     note = "8 JSON + 8 v1 stream claims (texts as above, 3 currencies, signed/unsigned), 2 v1 certificates, minimal JSON, 7 JSON float fees"
@@ -2112,7 +2112,6 @@ NOT_DECIDED = [
 ASSUMPTIONS = [
     "signed objects carry a 20-byte channel hash and a 64-byte signature (what Output.sign produces)",
     "claim ids are 40 lower-case hex digits, stream hashes 96, torrent info hashes 40 (upper-case input reads back lower-case)",
-    "deductive URL clauses exclude strings that are a valid URL plus one final newline (known finding F11, reported separately)",
     "the URL grammar is read from the statement and https://spec.lbry.com: optional 'lbry://', '@'-prefixed channel and/or stream "
     "name, each with optional ':'/'#' + 1..40 lower-case hex digits or '$' + positive integer without leading zero; names exclude "
     "= & # : $ @ % ? ; \" / \\ < > { } | ^ ~ ` [ ], U+0000..U+0020, surrogates, U+FFFE, U+FFFF (query strings are not part of it)",
